@@ -100,12 +100,12 @@ vh::Outcome run_c14(const vh::Case& c) {
                     readers_inside--;
                 };
                 if (wop == W_LR_MODIFY) {
-                    auto h = rvariant == 0 ? lr.lock_shared() : rvariant == 1 ? lr.try_lock_shared() : rvariant == 2 ? lr.try_lock_shared_for(std::chrono::milliseconds(1)) : lr.try_lock_shared_until(std::chrono::steady_clock::time_point::max());
+                    auto h = rvariant == 0 ? lr.lock_shared() : rvariant == 1 ? lr.try_lock_shared() : rvariant == 2 ? lr.try_lock_shared_for(std::chrono::milliseconds(1)) : lr.try_lock_shared_until((std::chrono::steady_clock::now() + std::chrono::milliseconds(50)));
                     if (!h) vrt::fail("null-handle", "lr_guarded shared acquisition returned null");
                     (void)h->read();
                     acquired();
                 } else if (wop == W_COW_COMMIT || wop == W_COW_LOCK) {
-                    auto s = rvariant == 0 ? cow.lock_shared() : rvariant == 1 ? cow.try_lock_shared() : rvariant == 2 ? cow.try_lock_shared_for(std::chrono::milliseconds(1)) : cow.try_lock_shared_until(std::chrono::steady_clock::time_point::max());
+                    auto s = rvariant == 0 ? cow.lock_shared() : rvariant == 1 ? cow.try_lock_shared() : rvariant == 2 ? cow.try_lock_shared_for(std::chrono::milliseconds(1)) : cow.try_lock_shared_until((std::chrono::steady_clock::now() + std::chrono::milliseconds(50)));
                     if (!s) vrt::fail("null-handle", "cow_guarded shared acquisition returned null");
                     (void)s->read();
                     acquired();
